@@ -387,6 +387,23 @@ end
 section
 variable {K : Type} [Field K]
 
+/-- `setup_thread_independent`: `unsafe_setup` computes, for every positive thread count, the
+index-wise parameters `g[i] = [s^i]G`, `g_lagrange[i] = [(s^n − 1)/n · ω^i/(s − ω^i)]G` (both of
+its `parallelize` loops are index-wise). Holds over any type with the operations (no field
+axioms needed). -/
+theorem setup_thread_independent {K' : Type} [Zero K'] [One K'] [Add K'] [Sub K'] [Mul K']
+    (t : Nat) (ht : 0 < t) (inv : K' → K') (d : Dom K') (s : K') (n : Nat) :
+    setupChunked t inv d s n = setupS inv d s n := by
+  unfold setupChunked setupS
+  congr 1
+  · rw [parallelize_indexwise t ht _ _ (fun i _ => powN s i) (fun ch start => fillPowers_eq s ch start)]
+    exact mapIdx_replicate n 0 _
+  · rw [parallelize_indexwise t ht _ _
+      (fun i _ => (powN s n - 1) * d.nInv * powN d.omega i * inv (s - powN d.omega i)) (fun ch start => rfl)]
+    exact mapIdx_replicate n 0 _
+
+example : (setupChunked 3 (fun x => x) ⟨2, 0, 1⟩ (3 : Int) 4).g = [1, 3, 9, 27] := by decide
+
 /-- `downsize_spec`: for a target `new_k` other than the current `max_k` and strictly smaller
 than the current size, `downsize` keeps the first `2^new_k` monomial bases and replaces the
 Lagrange basis by `g_to_lagrange` of the truncated vector (and touches nothing else). -/
